@@ -1,22 +1,41 @@
 // go2v — translator from a small, precisely delimited Go fragment to Gallina (DESIGN.md §1.1 (T)).
 //
 //	go2v -repo /repo -out /verif/coq/Gen  spec...
-//	spec = <ModuleName>=<file.go>:<Func>,<Type.Method>,...
+//	spec  = <ModuleName>=<group>(;<group>)*          (one generated file coq/Gen/<ModuleName>.v)
+//	group = <file.go>:<Func>,<Type.Method>,...       (functions of the package of <file.go>; callees before callers)
 //
-// Fragment: top-level functions and value-receiver methods on named integer types whose parameters, results and
-// locals are uint8/16/32/64, int64, int, bool or named types over those; statements: `if/else`, `return`, `x := e`,
-// `x = e`, `var x T`; expressions: + - * / % & | ^ << >> with Go's fixed-width semantics, comparisons, && || !,
-// unary minus, conversions between integer types, calls to other translated functions/methods, package-level
-// integer constants (their values are obtained exactly through go/constant), selected `thor.` constants (values
-// read from the repo source the same way) and the whitelisted configuration getters thor.EpochLength(),
-// thor.BlockInterval() … which become Section variables.  Results `(T, error)` become `option T` (Some v / None).
-// No loops, pointers, slices, structs or state.  Anything else: the function is reported as outside the
-// fragment and skipped (the check then relies on the correspondence run for it) — never silently approximated.
+// Fragment: top-level functions and methods (value or pointer receiver) whose parameters, results and locals are
+// uint8/16/32/64, int64, int, bool, named types (or aliases) over those, or — parameters and receivers only —
+// STRUCT types of the same or of an imported in-repo package (`v *Validation`, `val *validation.Validation`), read-only.
+// A struct parameter is translated as a group of parameters, one per field the function (transitively, through the
+// methods it calls with the same struct) reads, in declaration order: `v_<param>_<Field> : Z`; the fields that are read
+// must be integers / bools / named integer types, or optional integers `*uint32` (-> `option Z`).  A function that reads
+// a field of another type, or assigns to a field, is outside the fragment.
+// Statements: `if/else`, `return`, `x := e`, `x = e`, `x op= e`, `var x T`, and the error-propagation idiom
+//
+//	a, err := f(...)                 match f ... with
+//	if err != nil { return z, err }    | None => None | Some v_a => <rest> end
+//
+// (the check must follow the call immediately; anything else done with an error value is outside the fragment).
+// Expressions: + - * / % & | ^ << >> with Go's fixed-width semantics, comparisons, && || !, unary minus, conversions
+// between integer types, calls to other translated functions/methods (same module; a struct argument must be a plain
+// struct parameter of the caller and is passed as the callee's field group), package-level integer constants incl.
+// typed constants and `iota` blocks of the package or of an imported in-repo package (values obtained exactly through
+// go/constant), and the whitelisted configuration getters thor.EpochLength(), thor.BlockInterval(),
+// thor.CooldownPeriod() … which become Section variables.  Optional integers: `p == nil`, `p != nil`, and `*p` where p
+// is known to be non-nil at that point (`p != nil && …*p…`, `p == nil || …*p…`, the branches of `if p == nil` /
+// `if p != nil`): translated by a `match` that binds the value, so no default value is ever invented for nil.
+// Results `(T, error)` become `option T`: `return v, nil` is `Some v`; `return z, errors.New(..)` / `fmt.Errorf(..)` /
+// a package-level `Err…` variable / the err of the idiom above is `None`.
+// No loops, slices, maps, struct values or results, field updates, or state.  Anything else: the function is reported as
+// outside the fragment and skipped (the check then relies on the pinned translation + the correspondence run for it) —
+// never silently approximated.
 //
 // Semantics: every integer is a Z; every arithmetic result is wrapped to the static Go type of the expression
-// (wrapU w x = x mod 2^w; wrapS w x = two's-complement).  Division by zero is not in the fragment's semantics:
-// each `/` and `%` whose divisor is not a non-zero constant produces a side obligation comment `(* div: d <> 0 *)`
-// and is emitted as Z.quot/Z.rem for signed, Z.div/Z.modulo for unsigned operands.
+// (wrapU w x = x mod 2^w; wrapS w x = two's-complement).  Division by zero is not in the fragment's semantics
+// (Go panics; Coq's x/0 = 0, x mod 0 = x): lemmas over a generated `/` or `%` whose divisor is not a non-zero constant
+// carry the hypothesis d <> 0, and the cross-check does not evaluate such inputs.  Signed operands use Z.quot/Z.rem.
+// The output is a pure function of the tree (no positions, no map-order dependence).
 package main
 
 import (
@@ -33,9 +52,10 @@ import (
 )
 
 type ty struct {
-	kind  string // "u" unsigned, "s" signed, "bool", "untyped", "opt"
+	kind  string // "u" unsigned, "s" signed, "bool", "untyped", "opt" ((T, error) result), "ptr" (*intT), "struct"
 	width int
-	elem  *ty // for opt
+	elem  *ty         // for opt, ptr
+	st    *structInfo // for struct
 }
 
 func (t ty) String() string {
@@ -44,60 +64,253 @@ func (t ty) String() string {
 		return fmt.Sprintf("uint%d", t.width)
 	case "s":
 		return fmt.Sprintf("int%d", t.width)
+	case "ptr":
+		return "*" + t.elem.String()
+	case "struct":
+		return t.st.name
 	}
 	return t.kind
 }
 
+func (t ty) isInt() bool { return t.kind == "u" || t.kind == "s" }
+
 var basic = map[string]ty{
-	"uint8": {"u", 8, nil}, "byte": {"u", 8, nil}, "uint16": {"u", 16, nil}, "uint32": {"u", 32, nil}, "uint64": {"u", 64, nil},
-	"uint": {"u", 64, nil}, "int64": {"s", 64, nil}, "int32": {"s", 32, nil}, "int": {"s", 64, nil}, "bool": {"bool", 0, nil},
+	"uint8": {"u", 8, nil, nil}, "byte": {"u", 8, nil, nil}, "uint16": {"u", 16, nil, nil}, "uint32": {"u", 32, nil, nil}, "uint64": {"u", 64, nil, nil},
+	"uint": {"u", 64, nil, nil}, "int64": {"s", 64, nil, nil}, "int32": {"s", 32, nil, nil}, "int": {"s", 64, nil, nil}, "bool": {"bool", 0, nil, nil},
 }
 
 var configGetters = map[string]ty{
-	"thor.EpochLength": {"u", 32, nil}, "thor.BlockInterval": {"u", 64, nil}, "thor.SeederInterval": {"u", 32, nil},
-	"thor.CheckpointInterval": {"u", 32, nil},
+	"thor.EpochLength": {"u", 32, nil, nil}, "thor.BlockInterval": {"u", 64, nil, nil}, "thor.SeederInterval": {"u", 32, nil, nil},
+	"thor.CheckpointInterval": {"u", 32, nil, nil}, "thor.CooldownPeriod": {"u", 32, nil, nil},
 }
 
 type unsupported struct{ why string }
 
 func bail(format string, a ...any) { panic(unsupported{fmt.Sprintf(format, a...)}) }
 
-type fnSig struct {
-	coqName string
-	params  []ty
-	result  ty
+type field struct {
+	name string
+	t    ty
+	ok   bool
+	why  string
 }
 
-type pkgCtx struct {
+type structInfo struct {
+	pkg    *pkgInfo
+	name   string
+	fields []field
+}
+
+func (s *structInfo) field(name string) *field {
+	for i := range s.fields {
+		if s.fields[i].name == name {
+			return &s.fields[i]
+		}
+	}
+	return nil
+}
+
+type param struct {
+	name string
+	t    ty
+}
+
+type fnSig struct {
+	key     string // "<pkg dir>:<Func | Type.Method>"
+	coqName string
+	params  []param // receiver first
+	result  ty
+	use     map[string]map[string]bool // struct parameter -> fields read (transitively)
+}
+
+// usedFields: the fields of struct parameter i that the function reads, in declaration order.
+func (s *fnSig) usedFields(i int) []field {
+	var fs []field
+	pa := s.params[i]
+	for _, f := range pa.t.st.fields {
+		if s.use[pa.name][f.name] {
+			fs = append(fs, f)
+		}
+	}
+	return fs
+}
+
+type module struct {
+	repo    string
+	modPath string // module path of the repo (go.mod)
 	fset    *token.FileSet
-	named   map[string]ty             // named integer types of the package
+	pkgs    map[string]*pkgInfo
+	sigs    map[string]*fnSig
+	usedCfg map[string]bool
+	changed bool // a use set grew during this round
+}
+
+type pkgInfo struct {
+	m       *module
+	dir     string // relative to the repo
+	files   []*ast.File
+	named   map[string]ty             // named integer types / aliases of the package
 	consts  map[string]constant.Value // package-level constants (exact)
 	constTy map[string]ty             // typed constants
-	sigs    map[string]fnSig          // "Func" or "Type.Method"
-	extern  map[string]constant.Value // thor.X etc
-	externT map[string]ty
-	usedCfg map[string]bool
-	repo    string
+	structs map[string]*structInfo
+	imports map[string]string // local name -> in-repo package dir
 }
 
-func (p *pkgCtx) resolveType(e ast.Expr) ty {
+func (m *module) pkg(dir string) *pkgInfo {
+	if p, ok := m.pkgs[dir]; ok {
+		return p
+	}
+	p := &pkgInfo{m: m, dir: dir, named: map[string]ty{}, consts: map[string]constant.Value{}, constTy: map[string]ty{},
+		structs: map[string]*structInfo{}, imports: map[string]string{}}
+	m.pkgs[dir] = p
+	p.files = parseDirFiles(m.fset, filepath.Join(m.repo, dir))
+	for _, f := range p.files {
+		for _, im := range f.Imports {
+			path := strings.Trim(im.Path.Value, "\"")
+			if !strings.HasPrefix(path, m.modPath+"/") {
+				continue
+			}
+			rel := strings.TrimPrefix(path, m.modPath+"/")
+			name := filepath.Base(rel)
+			if im.Name != nil {
+				name = im.Name.Name
+			}
+			p.imports[name] = rel
+		}
+	}
+	// named integer types (defined or alias)
+	for _, f := range p.files {
+		for _, d := range f.Decls {
+			if gd, ok := d.(*ast.GenDecl); ok && gd.Tok == token.TYPE {
+				for _, s := range gd.Specs {
+					ts := s.(*ast.TypeSpec)
+					if id, ok := ts.Type.(*ast.Ident); ok {
+						if t, ok := basic[id.Name]; ok {
+							p.named[ts.Name.Name] = t
+						}
+					}
+				}
+			}
+		}
+	}
+	// struct types: the fields with a type inside the fragment are usable, the others only if never read
+	for _, f := range p.files {
+		for _, d := range f.Decls {
+			if gd, ok := d.(*ast.GenDecl); ok && gd.Tok == token.TYPE {
+				for _, s := range gd.Specs {
+					ts := s.(*ast.TypeSpec)
+					stt, ok := ts.Type.(*ast.StructType)
+					if !ok || ts.TypeParams != nil {
+						continue
+					}
+					si := &structInfo{pkg: p, name: ts.Name.Name}
+					for _, fl := range stt.Fields.List {
+						t, why := p.fieldType(fl.Type)
+						for _, n := range fl.Names { // embedded fields have no names: not readable in the fragment
+							si.fields = append(si.fields, field{name: n.Name, t: t, ok: why == "", why: why})
+						}
+					}
+					p.structs[ts.Name.Name] = si
+				}
+			}
+		}
+	}
+	loadConsts(p)
+	return p
+}
+
+func (p *pkgInfo) imp(name string) *pkgInfo {
+	if dir, ok := p.imports[name]; ok {
+		return p.m.pkg(dir)
+	}
+	return nil
+}
+
+// intType resolves an integer / bool type expression (basic, named, pkg.Named); ok=false otherwise.
+func (p *pkgInfo) intType(e ast.Expr) (ty, bool) {
 	switch x := e.(type) {
 	case *ast.Ident:
 		if t, ok := basic[x.Name]; ok {
-			return t
+			return t, true
 		}
 		if t, ok := p.named[x.Name]; ok {
-			return t
+			return t, true
 		}
-		bail("type %s outside the fragment", x.Name)
+	case *ast.SelectorExpr:
+		if id, ok := x.X.(*ast.Ident); ok {
+			if q := p.imp(id.Name); q != nil {
+				if t, ok := q.named[x.Sel.Name]; ok {
+					return t, true
+				}
+			}
+		}
+	case *ast.ParenExpr:
+		return p.intType(x.X)
+	}
+	return ty{}, false
+}
+
+func (p *pkgInfo) fieldType(e ast.Expr) (ty, string) {
+	if t, ok := p.intType(e); ok {
+		return t, ""
+	}
+	if st, ok := e.(*ast.StarExpr); ok {
+		if t, ok := p.intType(st.X); ok && t.isInt() {
+			return ty{kind: "ptr", elem: &t}, ""
+		}
+	}
+	return ty{}, "its type is neither an integer, a bool nor an optional integer"
+}
+
+// structType resolves T, *T, pkg.T, *pkg.T to a struct of this or an imported in-repo package.
+func (p *pkgInfo) structType(e ast.Expr) *structInfo {
+	if st, ok := e.(*ast.StarExpr); ok {
+		e = st.X
+	}
+	switch x := e.(type) {
+	case *ast.Ident:
+		return p.structs[x.Name]
+	case *ast.SelectorExpr:
+		if id, ok := x.X.(*ast.Ident); ok {
+			if q := p.imp(id.Name); q != nil {
+				return q.structs[x.Sel.Name]
+			}
+		}
+	}
+	return nil
+}
+
+// resolveType: the type of a local, a result or a non-struct parameter.
+func (p *pkgInfo) resolveType(e ast.Expr) ty {
+	if t, ok := p.intType(e); ok {
+		return t
+	}
+	if id, ok := e.(*ast.Ident); ok {
+		bail("type %s outside the fragment", id.Name)
 	}
 	bail("type expression outside the fragment")
 	return ty{}
 }
 
+// paramType: as resolveType, plus struct types and optional integers.
+func (p *pkgInfo) paramType(e ast.Expr) ty {
+	if t, ok := p.intType(e); ok {
+		return t
+	}
+	if si := p.structType(e); si != nil {
+		return ty{kind: "struct", st: si}
+	}
+	if st, ok := e.(*ast.StarExpr); ok {
+		if t, ok := p.intType(st.X); ok && t.isInt() {
+			return ty{kind: "ptr", elem: &t}
+		}
+	}
+	return p.resolveType(e)
+}
+
 // ---------------------------------------------------------------- constants
 
-func evalConst(e ast.Expr, env map[string]constant.Value, p *pkgCtx) (constant.Value, bool) {
+func evalConst(e ast.Expr, env map[string]constant.Value, p *pkgInfo) (constant.Value, bool) {
 	switch x := e.(type) {
 	case *ast.BasicLit:
 		if x.Kind == token.INT {
@@ -121,8 +334,10 @@ func evalConst(e ast.Expr, env map[string]constant.Value, p *pkgCtx) (constant.V
 					return constant.MakeInt64(1<<63 - 1), true
 				}
 			}
-			if v, ok := p.extern[id.Name+"."+x.Sel.Name]; ok {
-				return v, true
+			if q := p.imp(id.Name); q != nil {
+				if v, ok := q.consts[x.Sel.Name]; ok {
+					return v, true
+				}
 			}
 		}
 	case *ast.BinaryExpr:
@@ -139,41 +354,63 @@ func evalConst(e ast.Expr, env map[string]constant.Value, p *pkgCtx) (constant.V
 				return constant.BinaryOp(a, x.Op, b), true
 			}
 		}
-	case *ast.CallExpr: // conversion of a constant: uint64(c)
-		if len(x.Args) == 1 {
-			if id, ok := x.Fun.(*ast.Ident); ok {
-				if _, isB := basic[id.Name]; isB {
-					return evalConst(x.Args[0], env, p)
-				}
+	case *ast.CallExpr: // conversion of a constant: uint64(c), Status(c)
+		if len(x.Args) == 1 && p != nil {
+			if _, isT := p.intType(x.Fun); isT {
+				return evalConst(x.Args[0], env, p)
 			}
 		}
 	}
 	return nil, false
 }
 
-// loadPkgConsts reads the integer constants of a Go file set (exactly, through go/constant).
-func loadConsts(files []*ast.File, p *pkgCtx, into map[string]constant.Value, typed map[string]ty) {
+// constTypeOf: the declared type of a constant declaration (`const c T = …`, `c = T(…)`), if any.
+func constTypeOf(p *pkgInfo, typ ast.Expr, val ast.Expr) (ty, bool) {
+	if typ != nil {
+		return p.intType(typ)
+	}
+	if ce, ok := val.(*ast.CallExpr); ok && len(ce.Args) == 1 {
+		return p.intType(ce.Fun)
+	}
+	return ty{}, false
+}
+
+// loadConsts reads the integer constants of a package (exactly, through go/constant), incl. iota blocks with
+// implicit repetition of the previous expression.
+func loadConsts(p *pkgInfo) {
 	for pass := 0; pass < 4; pass++ { // constants may refer to later ones
-		for _, f := range files {
+		for _, f := range p.files {
 			for _, d := range f.Decls {
 				gd, ok := d.(*ast.GenDecl)
 				if !ok || gd.Tok != token.CONST {
 					continue
 				}
-				for _, s := range gd.Specs {
+				var prevVals []ast.Expr
+				var prevType ast.Expr
+				for iota, s := range gd.Specs {
 					vs := s.(*ast.ValueSpec)
+					vals, typ := vs.Values, vs.Type
+					if len(vals) == 0 {
+						vals, typ = prevVals, prevType
+					} else {
+						prevVals, prevType = vals, typ
+					}
 					for i, n := range vs.Names {
-						if i >= len(vs.Values) {
+						if i >= len(vals) || n.Name == "_" {
 							continue
 						}
-						if v, ok := evalConst(vs.Values[i], into, p); ok {
-							into[n.Name] = v
-							if vs.Type != nil && typed != nil {
-								if id, ok := vs.Type.(*ast.Ident); ok {
-									if t, ok := basic[id.Name]; ok {
-										typed[n.Name] = t
-									}
-								}
+						_, shadow := p.consts["iota"]
+						if !shadow {
+							p.consts["iota"] = constant.MakeInt64(int64(iota))
+						}
+						v, ok := evalConst(vals[i], p.consts, p)
+						if !shadow {
+							delete(p.consts, "iota")
+						}
+						if ok {
+							p.consts[n.Name] = v
+							if t, ok := constTypeOf(p, typ, vals[i]); ok {
+								p.constTy[n.Name] = t
 							}
 						}
 					}
@@ -186,8 +423,25 @@ func loadConsts(files []*ast.File, p *pkgCtx, into map[string]constant.Value, ty
 // ---------------------------------------------------------------- expressions
 
 type env struct {
-	vars map[string]ty
-	p    *pkgCtx
+	vars  map[string]ty
+	p     *pkgInfo
+	fn    *fnSig
+	deref map[string]string // Coq name of an optional integer known to be non-nil here -> name bound to its value
+	errs  map[string]bool   // error variables known to be non-nil here
+}
+
+func (en *env) clone() *env {
+	n := &env{vars: map[string]ty{}, p: en.p, fn: en.fn, deref: map[string]string{}, errs: map[string]bool{}}
+	for k, v := range en.vars {
+		n.vars[k] = v
+	}
+	for k, v := range en.deref {
+		n.deref[k] = v
+	}
+	for k, v := range en.errs {
+		n.errs[k] = v
+	}
+	return n
 }
 
 func zlit(v constant.Value) string {
@@ -208,9 +462,213 @@ func wrap(t ty, e string) string {
 	return e
 }
 
+// mentionsVar: does the expression mention a local variable / parameter (then it is not a constant expression, even if
+// a package constant of the same name exists)?
+func (en *env) mentionsVar(e ast.Expr) bool {
+	found := false
+	var walk func(n ast.Expr)
+	walk = func(n ast.Expr) {
+		switch x := n.(type) {
+		case *ast.Ident:
+			if _, ok := en.vars[x.Name]; ok {
+				found = true
+			}
+		case *ast.ParenExpr:
+			walk(x.X)
+		case *ast.SelectorExpr:
+			walk(x.X)
+		case *ast.BinaryExpr:
+			walk(x.X)
+			walk(x.Y)
+		case *ast.UnaryExpr:
+			walk(x.X)
+		case *ast.StarExpr:
+			walk(x.X)
+		case *ast.CallExpr:
+			for _, a := range x.Args {
+				walk(a)
+			}
+		}
+	}
+	walk(e)
+	return found
+}
+
+func (en *env) constOf(e ast.Expr) (constant.Value, bool) {
+	if en.mentionsVar(e) {
+		return nil, false
+	}
+	return evalConst(e, en.p.consts, en.p)
+}
+
+func unparen(e ast.Expr) ast.Expr {
+	for {
+		pe, ok := e.(*ast.ParenExpr)
+		if !ok {
+			return e
+		}
+		e = pe.X
+	}
+}
+
+func isNil(e ast.Expr) bool {
+	id, ok := unparen(e).(*ast.Ident)
+	return ok && id.Name == "nil"
+}
+
+// structField: e = X.F with X a struct parameter: records the read and returns the Coq name and the field.
+func (en *env) structField(e ast.Expr) (string, *field, bool) {
+	se, ok := unparen(e).(*ast.SelectorExpr)
+	if !ok {
+		return "", nil, false
+	}
+	id, ok := se.X.(*ast.Ident)
+	if !ok {
+		return "", nil, false
+	}
+	t, ok := en.vars[id.Name]
+	if !ok || t.kind != "struct" {
+		return "", nil, false
+	}
+	f := t.st.field(se.Sel.Name)
+	if f == nil {
+		return "", nil, false // a method value or an embedded field's member
+	}
+	if !f.ok {
+		bail("field %s.%s is read but %s", t.st.name, f.name, f.why)
+	}
+	en.useField(id.Name, f.name)
+	return "v_" + id.Name + "_" + f.name, f, true
+}
+
+func (en *env) useField(param, fld string) {
+	u := en.fn.use[param]
+	if u == nil {
+		u = map[string]bool{}
+		en.fn.use[param] = u
+	}
+	if !u[fld] {
+		u[fld] = true
+		en.p.m.changed = true
+	}
+}
+
+// ptrName: e is an optional integer (a `*uintN` field of a struct parameter, or such a parameter): its Coq name.
+func (en *env) ptrName(e ast.Expr) (string, ty, bool) {
+	e = unparen(e)
+	if id, ok := e.(*ast.Ident); ok {
+		if t, ok := en.vars[id.Name]; ok && t.kind == "ptr" {
+			return "v_" + id.Name, t, true
+		}
+		return "", ty{}, false
+	}
+	if name, f, ok := en.structField(e); ok && f.t.kind == "ptr" {
+		return name, f.t, true
+	}
+	return "", ty{}, false
+}
+
+// nilCheck: e is `p == nil` / `p != nil` (either order) on an optional integer.
+func (en *env) nilCheck(e ast.Expr) (name string, isNeq bool, ok bool) {
+	be, isB := unparen(e).(*ast.BinaryExpr)
+	if !isB || (be.Op != token.EQL && be.Op != token.NEQ) {
+		return "", false, false
+	}
+	x, y := be.X, be.Y
+	if isNil(x) {
+		x, y = y, x
+	}
+	if !isNil(y) {
+		return "", false, false
+	}
+	n, _, isP := en.ptrName(x)
+	if !isP {
+		bail("comparison with nil of something that is not an optional integer")
+	}
+	return n, be.Op == token.NEQ, true
+}
+
+func derefName(ptr string) string { return "d_" + strings.TrimPrefix(ptr, "v_") }
+
+// callee resolution ------------------------------------------------------------------
+
+type callKind int
+
+const (
+	callNone   callKind = iota
+	callConv            // T(x)
+	callSig             // translated function / method
+	callCfg             // configuration getter
+	callMinMax          // Go 1.21 builtins
+)
+
+type callInfo struct {
+	kind callKind
+	t    ty       // result type (conv: target type)
+	sig  *fnSig   // callSig
+	recv ast.Expr // callSig on a method: receiver expression
+	cfg  string   // callCfg
+	name string   // callMinMax
+	why  string   // callNone: reason
+}
+
+func (en *env) liveSig(p *pkgInfo, key string) *fnSig { return p.m.sigs[p.dir+":"+key] }
+
+func (en *env) resolveCall(x *ast.CallExpr) callInfo {
+	if t, ok := en.p.intType(x.Fun); ok && len(x.Args) == 1 {
+		if id, isId := unparen(x.Fun).(*ast.Ident); !isId || en.vars[id.Name].kind == "" {
+			return callInfo{kind: callConv, t: t}
+		}
+	}
+	switch f := x.Fun.(type) {
+	case *ast.Ident:
+		if s := en.liveSig(en.p, f.Name); s != nil {
+			return callInfo{kind: callSig, sig: s, t: s.result}
+		}
+		if (f.Name == "min" || f.Name == "max") && len(x.Args) == 2 {
+			t := en.typeOf(x.Args[0])
+			if t.kind == "untyped" {
+				t = en.typeOf(x.Args[1])
+			}
+			return callInfo{kind: callMinMax, name: f.Name, t: t}
+		}
+		return callInfo{why: fmt.Sprintf("call to %s outside the fragment", f.Name)}
+	case *ast.SelectorExpr:
+		if id, ok := f.X.(*ast.Ident); ok {
+			if vt, isVar := en.vars[id.Name]; isVar {
+				if vt.kind == "struct" {
+					if s := en.liveSig(vt.st.pkg, vt.st.name+"."+f.Sel.Name); s != nil {
+						return callInfo{kind: callSig, sig: s, recv: f.X, t: s.result}
+					}
+					return callInfo{why: fmt.Sprintf("call to method %s.%s which is not translated", vt.st.name, f.Sel.Name)}
+				}
+				return callInfo{why: fmt.Sprintf("method call on a variable (%s.%s): receiver type lookup not in the fragment", id.Name, f.Sel.Name)}
+			}
+			key := id.Name + "." + f.Sel.Name
+			if t, ok := configGetters[key]; ok && len(x.Args) == 0 && en.p.imp(id.Name) != nil {
+				return callInfo{kind: callCfg, cfg: key, t: t}
+			}
+			if q := en.p.imp(id.Name); q != nil {
+				if s := en.liveSig(q, f.Sel.Name); s != nil {
+					return callInfo{kind: callSig, sig: s, t: s.result}
+				}
+			}
+		}
+		// method call on a converted value: T(x).M(...)
+		if ce, ok := f.X.(*ast.CallExpr); ok {
+			if id, ok := ce.Fun.(*ast.Ident); ok {
+				if s := en.liveSig(en.p, id.Name+"."+f.Sel.Name); s != nil {
+					return callInfo{kind: callSig, sig: s, recv: f.X, t: s.result}
+				}
+			}
+		}
+	}
+	return callInfo{why: "call expression outside the fragment"}
+}
+
 // typeOf returns the static type (untyped for constant expressions).
 func (en *env) typeOf(e ast.Expr) ty {
-	if _, ok := evalConst(e, en.p.consts, en.p); ok {
+	if _, ok := en.constOf(e); ok {
 		// typed constants keep their type
 		if id, ok := e.(*ast.Ident); ok {
 			if t, ok := en.p.constTy[id.Name]; ok {
@@ -219,16 +677,16 @@ func (en *env) typeOf(e ast.Expr) ty {
 		}
 		if se, ok := e.(*ast.SelectorExpr); ok {
 			if id, ok := se.X.(*ast.Ident); ok {
-				if t, ok := en.p.externT[id.Name+"."+se.Sel.Name]; ok {
-					return t
+				if q := en.p.imp(id.Name); q != nil {
+					if t, ok := q.constTy[se.Sel.Name]; ok {
+						return t
+					}
 				}
 			}
 		}
 		if ce, ok := e.(*ast.CallExpr); ok {
-			if id, ok := ce.Fun.(*ast.Ident); ok {
-				if t, ok := basic[id.Name]; ok {
-					return t
-				}
+			if t, ok := en.p.intType(ce.Fun); ok {
+				return t
 			}
 		}
 		return ty{kind: "untyped"}
@@ -244,6 +702,16 @@ func (en *env) typeOf(e ast.Expr) ty {
 		bail("unknown identifier %s", x.Name)
 	case *ast.ParenExpr:
 		return en.typeOf(x.X)
+	case *ast.SelectorExpr:
+		if _, f, ok := en.structField(x); ok {
+			return f.t
+		}
+		bail("selector expression outside the fragment")
+	case *ast.StarExpr:
+		if _, t, ok := en.ptrName(x.X); ok {
+			return *t.elem
+		}
+		bail("dereference outside the fragment")
 	case *ast.UnaryExpr:
 		if x.Op == token.NOT {
 			return ty{kind: "bool"}
@@ -262,52 +730,60 @@ func (en *env) typeOf(e ast.Expr) ty {
 		}
 		return b
 	case *ast.CallExpr:
-		if id, ok := x.Fun.(*ast.Ident); ok {
-			if t, ok := basic[id.Name]; ok {
-				return t
-			}
-			if t, ok := en.p.named[id.Name]; ok {
-				return t
-			}
-			if s, ok := en.p.sigs[id.Name]; ok {
-				return s.result
-			}
-			if (id.Name == "min" || id.Name == "max") && len(x.Args) == 2 { // Go 1.21 builtins
-				if t := en.typeOf(x.Args[0]); t.kind != "untyped" {
-					return t
-				}
-				return en.typeOf(x.Args[1])
-			}
-			bail("call to %s outside the fragment", id.Name)
+		ci := en.resolveCall(x)
+		if ci.kind == callNone {
+			bail("%s", ci.why)
 		}
-		if se, ok := x.Fun.(*ast.SelectorExpr); ok {
-			if id, ok := se.X.(*ast.Ident); ok {
-				if t, ok := configGetters[id.Name+"."+se.Sel.Name]; ok {
-					return t
-				}
-			}
-			// method call on a converted value: T(x).M(...)
-			if ce, ok := se.X.(*ast.CallExpr); ok {
-				if id, ok := ce.Fun.(*ast.Ident); ok {
-					if s, ok := en.p.sigs[id.Name+"."+se.Sel.Name]; ok {
-						return s.result
-					}
-				}
-			}
-			if id, ok := se.X.(*ast.Ident); ok {
-				if _, isVar := en.vars[id.Name]; isVar {
-					bail("method call on a variable (%s.%s): receiver type lookup not in the fragment", id.Name, se.Sel.Name)
-				}
-			}
-		}
-		bail("call expression outside the fragment")
+		return ci.t
 	}
 	bail("expression outside the fragment (%T)", e)
 	return ty{}
 }
 
+// chain flattens a left-nested && (or ||) chain into its operands.
+func chain(e ast.Expr, op token.Token) []ast.Expr {
+	if be, ok := unparen(e).(*ast.BinaryExpr); ok && be.Op == op {
+		return append(chain(be.X, op), chain(be.Y, op)...)
+	}
+	return []ast.Expr{e}
+}
+
+// guarded translates a && / || chain that contains nil checks of optional integers: the operands to the right of
+// `p != nil &&` (resp. `p == nil ||`) see the value of p.
+func (en *env) guarded(ops []ast.Expr, op token.Token) string {
+	if len(ops) == 1 {
+		return en.expr(ops[0])
+	}
+	if name, isNeq, ok := en.nilCheck(ops[0]); ok {
+		if _, known := en.deref[name]; !known {
+			en2 := en.clone()
+			en2.deref[name] = derefName(name)
+			if op == token.LAND && isNeq {
+				return "(match " + name + " with Some " + derefName(name) + " => " + en2.guarded(ops[1:], op) + " | None => false end)"
+			}
+			if op == token.LOR && !isNeq {
+				return "(match " + name + " with None => true | Some " + derefName(name) + " => " + en2.guarded(ops[1:], op) + " end)"
+			}
+		}
+	}
+	sym := " && "
+	if op == token.LOR {
+		sym = " || "
+	}
+	return "(" + en.expr(ops[0]) + sym + en.guarded(ops[1:], op) + ")"
+}
+
+func (en *env) hasNilCheck(ops []ast.Expr) bool {
+	for _, o := range ops {
+		if be, ok := unparen(o).(*ast.BinaryExpr); ok && (be.Op == token.EQL || be.Op == token.NEQ) && (isNil(be.X) || isNil(be.Y)) {
+			return true
+		}
+	}
+	return false
+}
+
 func (en *env) expr(e ast.Expr) string {
-	if v, ok := evalConst(e, en.p.consts, en.p); ok {
+	if v, ok := en.constOf(e); ok {
 		return zlit(v)
 	}
 	switch x := e.(type) {
@@ -315,12 +791,29 @@ func (en *env) expr(e ast.Expr) string {
 		if x.Name == "true" || x.Name == "false" {
 			return x.Name
 		}
-		if _, ok := en.vars[x.Name]; ok {
+		if t, ok := en.vars[x.Name]; ok {
+			if t.kind == "struct" {
+				bail("struct value %s used as a whole", x.Name)
+			}
 			return "v_" + x.Name
 		}
 		bail("unknown identifier %s", x.Name)
 	case *ast.ParenExpr:
 		return en.expr(x.X)
+	case *ast.SelectorExpr:
+		if name, _, ok := en.structField(x); ok {
+			return name
+		}
+		bail("selector expression outside the fragment")
+	case *ast.StarExpr:
+		name, _, ok := en.ptrName(x.X)
+		if !ok {
+			bail("dereference outside the fragment")
+		}
+		if d, ok := en.deref[name]; ok {
+			return d
+		}
+		bail("dereference of an optional integer that is not known to be non-nil at this point")
 	case *ast.UnaryExpr:
 		switch x.Op {
 		case token.NOT:
@@ -331,11 +824,25 @@ func (en *env) expr(e ast.Expr) string {
 		}
 		bail("unary operator %s outside the fragment", x.Op)
 	case *ast.BinaryExpr:
+		if x.Op == token.LAND || x.Op == token.LOR {
+			if ops := chain(x, x.Op); en.hasNilCheck(ops) {
+				return en.guarded(ops, x.Op)
+			}
+		}
+		if name, isNeq, ok := en.nilCheck(x); ok {
+			if isNeq {
+				return "(match " + name + " with Some _ => true | None => false end)"
+			}
+			return "(match " + name + " with Some _ => false | None => true end)"
+		}
 		a, b := en.expr(x.X), en.expr(x.Y)
 		t := en.typeOf(x)
 		ot := en.typeOf(x.X)
 		if ot.kind == "untyped" {
 			ot = en.typeOf(x.Y)
+		}
+		if ot.kind == "ptr" || ot.kind == "struct" || ot.kind == "opt" {
+			bail("operator %s on a value that is not an integer or a bool", x.Op)
 		}
 		switch x.Op {
 		case token.ADD:
@@ -389,59 +896,61 @@ func (en *env) expr(e ast.Expr) string {
 		}
 		bail("binary operator %s outside the fragment", x.Op)
 	case *ast.CallExpr:
-		if id, ok := x.Fun.(*ast.Ident); ok {
-			if t, ok := basic[id.Name]; ok && len(x.Args) == 1 {
-				return wrap(t, en.expr(x.Args[0]))
+		ci := en.resolveCall(x)
+		switch ci.kind {
+		case callConv:
+			return wrap(ci.t, en.expr(x.Args[0]))
+		case callSig:
+			if ci.sig.result.kind == "opt" {
+				bail("result of %s (value, error) used without the error check idiom", ci.sig.coqName)
 			}
-			if t, ok := en.p.named[id.Name]; ok && len(x.Args) == 1 {
-				return wrap(t, en.expr(x.Args[0]))
-			}
-			if s, ok := en.p.sigs[id.Name]; ok {
-				return en.call(s, nil, x.Args)
-			}
-			if (id.Name == "min" || id.Name == "max") && len(x.Args) == 2 {
-				return "(Z." + id.Name + " " + en.expr(x.Args[0]) + " " + en.expr(x.Args[1]) + ")"
-			}
+			return en.call(ci.sig, ci.recv, x.Args)
+		case callMinMax:
+			return "(Z." + ci.name + " " + en.expr(x.Args[0]) + " " + en.expr(x.Args[1]) + ")"
+		case callCfg:
+			en.p.m.usedCfg[ci.cfg] = true
+			return "cfg_" + strings.ReplaceAll(ci.cfg, ".", "_")
 		}
-		if se, ok := x.Fun.(*ast.SelectorExpr); ok {
-			if id, ok := se.X.(*ast.Ident); ok {
-				key := id.Name + "." + se.Sel.Name
-				if _, ok := configGetters[key]; ok && len(x.Args) == 0 {
-					en.p.usedCfg[key] = true
-					return "cfg_" + strings.ReplaceAll(key, ".", "_")
-				}
-			}
-			if ce, ok := se.X.(*ast.CallExpr); ok {
-				if id, ok := ce.Fun.(*ast.Ident); ok {
-					if s, ok := en.p.sigs[id.Name+"."+se.Sel.Name]; ok {
-						return en.call(s, se.X, x.Args)
-					}
-				}
-			}
-		}
-		bail("call outside the fragment")
+		bail("%s", ci.why)
 	}
 	bail("expression outside the fragment (%T)", e)
 	return ""
 }
 
-func (en *env) call(s fnSig, recv ast.Expr, args []ast.Expr) string {
+func (en *env) call(s *fnSig, recv ast.Expr, args []ast.Expr) string {
 	parts := []string{s.coqName}
-	if len(en.p.usedCfgOrder()) > 0 {
-		// functions inside the Section see the config variables implicitly
-	}
+	actuals := args
 	if recv != nil {
-		parts = append(parts, en.expr(recv))
+		actuals = append([]ast.Expr{recv}, args...)
 	}
-	for _, a := range args {
-		parts = append(parts, en.expr(a))
+	if len(actuals) != len(s.params) {
+		bail("call of %s with %d arguments for %d parameters (variadic / multi-value calls are outside the fragment)", s.coqName, len(actuals), len(s.params))
+	}
+	for i, a := range actuals {
+		pt := s.params[i].t
+		if pt.kind != "struct" {
+			parts = append(parts, en.expr(a))
+			continue
+		}
+		id, ok := unparen(a).(*ast.Ident)
+		if !ok {
+			bail("struct argument of %s is not a plain struct parameter of the caller", s.coqName)
+		}
+		at, ok := en.vars[id.Name]
+		if !ok || at.kind != "struct" || at.st != pt.st {
+			bail("struct argument %s of %s is not a parameter of type %s", id.Name, s.coqName, pt.st.name)
+		}
+		for _, f := range s.usedFields(i) {
+			en.useField(id.Name, f.name)
+			parts = append(parts, "v_"+id.Name+"_"+f.name)
+		}
 	}
 	return "(" + strings.Join(parts, " ") + ")"
 }
 
-func (p *pkgCtx) usedCfgOrder() []string {
+func (m *module) usedCfgOrder() []string {
 	var ks []string
-	for k := range p.usedCfg {
+	for k := range m.usedCfg {
 		ks = append(ks, k)
 	}
 	sort.Strings(ks)
@@ -450,12 +959,74 @@ func (p *pkgCtx) usedCfgOrder() []string {
 
 // ---------------------------------------------------------------- statements (continuation style)
 
-func copyVars(m map[string]ty) map[string]ty {
-	n := map[string]ty{}
-	for k, v := range m {
-		n[k] = v
+// errBind: `a, err := f(...)` immediately followed by `if err != nil { return z, <error> }`.
+func (en *env) errBind(x *ast.AssignStmt, rest []ast.Stmt, result ty, depth int) string {
+	call, ok := unparen(x.Rhs[0]).(*ast.CallExpr)
+	if !ok {
+		bail("multi-assignment outside the fragment")
 	}
-	return n
+	ci := en.resolveCall(call)
+	if ci.kind == callNone {
+		bail("%s", ci.why)
+	}
+	if ci.kind != callSig || ci.sig.result.kind != "opt" {
+		bail("multi-assignment from something that is not a translated (value, error) function")
+	}
+	vid, ok1 := x.Lhs[0].(*ast.Ident)
+	eid, ok2 := x.Lhs[1].(*ast.Ident)
+	if !ok1 || !ok2 || eid.Name == "_" {
+		bail("assignment target outside the fragment (the error result must be bound and checked)")
+	}
+	if x.Tok != token.DEFINE && x.Tok != token.ASSIGN {
+		bail("assignment operator %s outside the fragment", x.Tok)
+	}
+	if result.kind != "opt" {
+		bail("error propagation in a function without an error result")
+	}
+	if len(rest) == 0 {
+		bail("error result of %s is not checked immediately", ci.sig.coqName)
+	}
+	ifs, ok := rest[0].(*ast.IfStmt)
+	if !ok || ifs.Init != nil || ifs.Else != nil {
+		bail("error result of %s is not checked immediately by `if %s != nil { return … }`", ci.sig.coqName, eid.Name)
+	}
+	cond, ok := unparen(ifs.Cond).(*ast.BinaryExpr)
+	if !ok || cond.Op != token.NEQ {
+		bail("error result of %s is not checked immediately by `if %s != nil { return … }`", ci.sig.coqName, eid.Name)
+	}
+	cx, cy := cond.X, cond.Y
+	if isNil(cx) {
+		cx, cy = cy, cx
+	}
+	cid, ok := unparen(cx).(*ast.Ident)
+	if !ok || cid.Name != eid.Name || !isNil(cy) {
+		bail("error result of %s is not checked immediately by `if %s != nil { return … }`", ci.sig.coqName, eid.Name)
+	}
+	if len(ifs.Body.List) != 1 {
+		bail("the error branch does more than return the error")
+	}
+	rs, ok := ifs.Body.List[0].(*ast.ReturnStmt)
+	if !ok {
+		bail("the error branch does more than return the error")
+	}
+	enErr := en.clone()
+	enErr.errs[eid.Name] = true
+	if enErr.ret(rs, result) != "None" {
+		bail("the error branch does not return an error")
+	}
+	en2 := en.clone()
+	bname := "_"
+	if vid.Name != "_" {
+		if x.Tok == token.ASSIGN {
+			if _, ok := en.vars[vid.Name]; !ok {
+				bail("assignment to undeclared %s", vid.Name)
+			}
+		}
+		en2.vars[vid.Name] = *ci.sig.result.elem
+		bname = "v_" + vid.Name
+	}
+	return "match " + en.call(ci.sig, ci.recv, call.Args) + " with\n  | None => None\n  | Some " + bname + " =>\n  " +
+		en2.stmts(rest[1:], result, depth+1) + "\n  end"
 }
 
 // stmts translates a statement list followed by `rest` (statements after the enclosing block) to an expression.
@@ -471,6 +1042,9 @@ func (en *env) stmts(list []ast.Stmt, result ty, depth int) string {
 	case *ast.ReturnStmt:
 		return en.ret(x, result)
 	case *ast.AssignStmt:
+		if len(x.Lhs) == 2 && len(x.Rhs) == 1 {
+			return en.errBind(x, rest, result, depth)
+		}
 		if len(x.Lhs) != 1 || len(x.Rhs) != 1 {
 			bail("multi-assignment outside the fragment")
 		}
@@ -483,10 +1057,13 @@ func (en *env) stmts(list []ast.Stmt, result ty, depth int) string {
 		case token.DEFINE:
 			t := en.typeOf(x.Rhs[0])
 			if t.kind == "untyped" {
-				t = ty{"s", 64, nil}
+				t = ty{"s", 64, nil, nil}
+			}
+			if t.kind == "ptr" || t.kind == "struct" || t.kind == "opt" {
+				bail("local variable %s of a type that is not an integer or a bool", id.Name)
 			}
 			val = en.expr(x.Rhs[0])
-			en2 := &env{copyVars(en.vars), en.p}
+			en2 := en.clone()
 			en2.vars[id.Name] = t
 			return "let v_" + id.Name + " := " + val + " in\n  " + en2.stmts(rest, result, depth+1)
 		case token.ASSIGN:
@@ -497,8 +1074,10 @@ func (en *env) stmts(list []ast.Stmt, result ty, depth int) string {
 		default:
 			bail("assignment operator %s outside the fragment", x.Tok)
 		}
-		if _, ok := en.vars[id.Name]; !ok {
+		if t, ok := en.vars[id.Name]; !ok {
 			bail("assignment to undeclared %s", id.Name)
+		} else if !t.isInt() && t.kind != "bool" {
+			bail("assignment to %s, which is not an integer or a bool", id.Name)
 		}
 		return "let v_" + id.Name + " := " + val + " in\n  " + en.stmts(rest, result, depth+1)
 	case *ast.DeclStmt:
@@ -506,7 +1085,7 @@ func (en *env) stmts(list []ast.Stmt, result ty, depth int) string {
 		if !ok || gd.Tok != token.VAR {
 			bail("declaration outside the fragment")
 		}
-		en2 := &env{copyVars(en.vars), en.p}
+		en2 := en.clone()
 		var lets []string
 		for _, sp := range gd.Specs {
 			vs := sp.(*ast.ValueSpec)
@@ -516,6 +1095,9 @@ func (en *env) stmts(list []ast.Stmt, result ty, depth int) string {
 					t = en.p.resolveType(vs.Type)
 				} else if i < len(vs.Values) {
 					t = en.typeOf(vs.Values[i])
+					if !t.isInt() && t.kind != "bool" && t.kind != "untyped" {
+						bail("local variable %s of a type that is not an integer or a bool", n.Name)
+					}
 				}
 				init := "0"
 				if t.kind == "bool" {
@@ -533,7 +1115,6 @@ func (en *env) stmts(list []ast.Stmt, result ty, depth int) string {
 		if x.Init != nil {
 			bail("if with init statement outside the fragment")
 		}
-		cond := en.expr(x.Cond)
 		thenList := append(append([]ast.Stmt{}, x.Body.List...), rest...)
 		var elseList []ast.Stmt
 		switch e := x.Else.(type) {
@@ -544,9 +1125,24 @@ func (en *env) stmts(list []ast.Stmt, result ty, depth int) string {
 		case *ast.IfStmt:
 			elseList = append([]ast.Stmt{e}, rest...)
 		}
+		// `if p == nil` / `if p != nil` on an optional integer: a match that binds the value in the non-nil branch
+		if name, isNeq, ok := en.nilCheck(x.Cond); ok {
+			if _, known := en.deref[name]; !known {
+				some, none := en.clone(), en.clone()
+				some.deref[name] = derefName(name)
+				someList, noneList := thenList, elseList
+				if !isNeq {
+					someList, noneList = elseList, thenList
+				}
+				noneS := none.stmts(noneList, result, depth+1)
+				someS := some.stmts(someList, result, depth+1)
+				return "match " + name + " with\n  | None => (" + noneS + ")\n  | Some " + derefName(name) + " => (" + someS + ")\n  end"
+			}
+		}
+		cond := en.expr(x.Cond)
 		// locals declared inside a branch stay local: translate each branch with its own copy of the environment
-		thenS := (&env{copyVars(en.vars), en.p}).stmts(thenList, result, depth+1)
-		elseS := (&env{copyVars(en.vars), en.p}).stmts(elseList, result, depth+1)
+		thenS := en.clone().stmts(thenList, result, depth+1)
+		elseS := en.clone().stmts(elseList, result, depth+1)
 		return "if " + cond + "\n  then (" + thenS + ")\n  else (" + elseS + ")"
 	case *ast.BlockStmt:
 		return en.stmts(append(append([]ast.Stmt{}, x.List...), rest...), result, depth+1)
@@ -555,15 +1151,43 @@ func (en *env) stmts(list []ast.Stmt, result ty, depth int) string {
 	return ""
 }
 
+// isError: the expression is an error value that is certainly non-nil.
+func (en *env) isError(e ast.Expr) bool {
+	switch x := unparen(e).(type) {
+	case *ast.CallExpr:
+		if se, ok := x.Fun.(*ast.SelectorExpr); ok {
+			if id, ok := se.X.(*ast.Ident); ok {
+				k := id.Name + "." + se.Sel.Name
+				return k == "errors.New" || k == "fmt.Errorf" || k == "errors.Errorf" || k == "errors.Wrap" || k == "errors.WithMessage"
+			}
+		}
+	case *ast.Ident:
+		if en.errs[x.Name] {
+			return true
+		}
+		if _, isVar := en.vars[x.Name]; !isVar && (strings.HasPrefix(x.Name, "Err") || (strings.HasPrefix(x.Name, "err") && x.Name != "err")) {
+			return true // package-level error variable (ErrMaxTryReached, errNotFound …)
+		}
+	case *ast.SelectorExpr:
+		if _, ok := x.X.(*ast.Ident); ok && strings.HasPrefix(x.Sel.Name, "Err") {
+			return true
+		}
+	}
+	return false
+}
+
 func (en *env) ret(r *ast.ReturnStmt, result ty) string {
 	if result.kind == "opt" {
 		if len(r.Results) != 2 {
 			bail("return arity")
 		}
-		if id, ok := r.Results[1].(*ast.Ident); ok && id.Name == "nil" {
+		if isNil(r.Results[1]) {
 			return "Some " + en.expr(r.Results[0])
 		}
-		return "None"
+		if en.isError(r.Results[1]) {
+			return "None"
+		}
+		bail("returned error value is not known to be non-nil")
 	}
 	if len(r.Results) != 1 {
 		bail("return arity (named results are outside the fragment)")
@@ -578,9 +1202,16 @@ func coqType(t ty) string {
 	case "bool":
 		return "bool"
 	case "opt":
+		return "option " + coqType(*t.elem)
+	case "ptr":
 		return "option Z"
 	}
 	return "Z"
+}
+
+type group struct {
+	file  string
+	names []string
 }
 
 func main() {
@@ -590,9 +1221,13 @@ func main() {
 	status := 0
 	for _, spec := range flag.Args() {
 		eq := strings.Index(spec, "=")
-		colon := strings.LastIndex(spec, ":")
-		mod, file, names := spec[:eq], spec[eq+1:colon], strings.Split(spec[colon+1:], ",")
-		text, report := translate(*repo, mod, file, names)
+		mod := spec[:eq]
+		var groups []group
+		for _, g := range strings.Split(spec[eq+1:], ";") {
+			colon := strings.LastIndex(g, ":")
+			groups = append(groups, group{g[:colon], strings.Split(g[colon+1:], ",")})
+		}
+		text, report := translate(*repo, mod, groups)
 		for _, r := range report {
 			fmt.Println(r)
 		}
@@ -624,90 +1259,114 @@ func parseDirFiles(fset *token.FileSet, dir string) []*ast.File {
 	return files
 }
 
-func translate(repo, mod, file string, names []string) (string, []string) {
-	var report []string
-	fset := token.NewFileSet()
-	p := &pkgCtx{fset: fset, named: map[string]ty{}, consts: map[string]constant.Value{}, constTy: map[string]ty{},
-		sigs: map[string]fnSig{}, extern: map[string]constant.Value{}, externT: map[string]ty{}, usedCfg: map[string]bool{}, repo: repo}
-	// thor constants (exact values from the repo source)
-	thorConsts, thorTy := map[string]constant.Value{}, map[string]ty{}
-	loadConsts(parseDirFiles(fset, filepath.Join(repo, "thor")), nil, thorConsts, thorTy)
-	for k, v := range thorConsts {
-		p.extern["thor."+k] = v
-	}
-	for k, v := range thorTy {
-		p.externT["thor."+k] = v
-	}
-	dir := filepath.Dir(filepath.Join(repo, file))
-	files := parseDirFiles(fset, dir)
-	// named integer types
-	for _, f := range files {
-		for _, d := range f.Decls {
-			if gd, ok := d.(*ast.GenDecl); ok && gd.Tok == token.TYPE {
-				for _, s := range gd.Specs {
-					ts := s.(*ast.TypeSpec)
-					if id, ok := ts.Type.(*ast.Ident); ok {
-						if t, ok := basic[id.Name]; ok {
-							p.named[ts.Name.Name] = t
-						}
-					}
-				}
-			}
+func modulePath(repo string) string {
+	b, _ := os.ReadFile(filepath.Join(repo, "go.mod"))
+	for _, l := range strings.Split(string(b), "\n") {
+		if strings.HasPrefix(l, "module ") {
+			return strings.TrimSpace(strings.TrimPrefix(l, "module "))
 		}
 	}
-	loadConsts(files, p, p.consts, p.constTy)
-	// collect requested function declarations (from the whole package so renames of the file do not matter)
-	want := map[string]bool{}
-	for _, n := range names {
-		want[n] = true
+	return "github.com/vechain/thor/v2"
+}
+
+type target struct {
+	p    *pkgInfo
+	name string // Func | Type.Method
+	fd   *ast.FuncDecl
+	sig  *fnSig
+	dead string // reason, once outside the fragment
+	def  string
+	pos  string
+}
+
+func recvTypeName(e ast.Expr) (string, bool) {
+	if st, ok := e.(*ast.StarExpr); ok {
+		e = st.X
 	}
-	decls := map[string]*ast.FuncDecl{}
-	for _, f := range files {
-		for _, d := range f.Decls {
-			fd, ok := d.(*ast.FuncDecl)
-			if !ok || fd.Body == nil {
-				continue
-			}
-			key := fd.Name.Name
-			if fd.Recv != nil && len(fd.Recv.List) == 1 {
-				if id, ok := fd.Recv.List[0].Type.(*ast.Ident); ok {
-					key = id.Name + "." + fd.Name.Name
-				} else {
+	id, ok := e.(*ast.Ident)
+	if !ok {
+		return "", false
+	}
+	return id.Name, true
+}
+
+func translate(repo, mod string, groups []group) (string, []string) {
+	var report []string
+	m := &module{repo: repo, modPath: modulePath(repo), fset: token.NewFileSet(), pkgs: map[string]*pkgInfo{}, sigs: map[string]*fnSig{},
+		usedCfg: map[string]bool{}}
+	var targets []*target
+	coqNames := map[string]bool{}
+	for _, g := range groups {
+		p := m.pkg(filepath.Dir(g.file))
+		// collect requested function declarations (from the whole package so renames of the file do not matter)
+		decls := map[string]*ast.FuncDecl{}
+		for _, f := range p.files {
+			for _, d := range f.Decls {
+				fd, ok := d.(*ast.FuncDecl)
+				if !ok || fd.Body == nil {
 					continue
 				}
-			}
-			if want[key] {
+				key := fd.Name.Name
+				if fd.Recv != nil && len(fd.Recv.List) == 1 {
+					tn, ok := recvTypeName(fd.Recv.List[0].Type)
+					if !ok {
+						continue
+					}
+					key = tn + "." + fd.Name.Name
+				}
 				decls[key] = fd
 			}
 		}
-	}
-	// signatures first (calls may go in any direction; emission order = order of `names`, callees must come first)
-	for _, n := range names {
-		fd, ok := decls[n]
-		if !ok {
-			report = append(report, fmt.Sprintf("go2v: %s: %s not found in %s (renamed or removed) — falls back to correspondence", mod, n, dir))
-			continue
+		for _, n := range g.names {
+			fd, ok := decls[n]
+			if !ok {
+				report = append(report, fmt.Sprintf("go2v: %s: %s not found in %s (renamed or removed) — falls back to correspondence", mod, n, filepath.Join(repo, p.dir)))
+				continue
+			}
+			targets = append(targets, &target{p: p, name: n, fd: fd})
 		}
-		func() {
-			defer func() {
-				if r := recover(); r != nil {
-					if u, ok := r.(unsupported); ok {
-						report = append(report, fmt.Sprintf("go2v: %s: %s outside the fragment: %s", mod, n, u.why))
-						delete(decls, n)
-						return
-					}
-					panic(r)
+	}
+	guard := func(t *target, f func()) {
+		defer func() {
+			if r := recover(); r != nil {
+				if u, ok := r.(unsupported); ok {
+					t.dead = u.why
+					delete(m.sigs, t.p.dir+":"+t.name)
+					return
 				}
-			}()
-			sig := fnSig{coqName: strings.ReplaceAll(n, ".", "_")}
+				panic(r)
+			}
+		}()
+		f()
+	}
+	// signatures first (calls may go in any direction; emission order = order of the spec, callees must come first)
+	for _, t := range targets {
+		guard(t, func() {
+			fd, p := t.fd, t.p
+			sig := &fnSig{key: p.dir + ":" + t.name, coqName: strings.ReplaceAll(t.name, ".", "_"), use: map[string]map[string]bool{}}
+			if coqNames[sig.coqName] {
+				bail("name %s occurs twice in the module", sig.coqName)
+			}
+			addParam := func(names []*ast.Ident, typ ast.Expr, isRecv bool) {
+				pt := p.paramType(typ)
+				if isRecv && len(names) == 0 {
+					names = []*ast.Ident{{Name: "_recv"}}
+				}
+				if len(names) == 0 {
+					bail("unnamed parameter")
+				}
+				for _, nm := range names {
+					sig.params = append(sig.params, param{nm.Name, pt})
+				}
+			}
 			if fd.Recv != nil {
-				sig.params = append(sig.params, p.resolveType(fd.Recv.List[0].Type))
+				addParam(fd.Recv.List[0].Names, fd.Recv.List[0].Type, true)
 			}
 			for _, f := range fd.Type.Params.List {
-				t := p.resolveType(f.Type)
-				for range f.Names {
-					sig.params = append(sig.params, t)
+				if _, isEll := f.Type.(*ast.Ellipsis); isEll {
+					bail("variadic parameter")
 				}
+				addParam(f.Names, f.Type, false)
 			}
 			res := fd.Type.Results
 			switch {
@@ -725,61 +1384,76 @@ func translate(repo, mod, file string, names []string) (string, []string) {
 			default:
 				bail("result list outside the fragment")
 			}
-			if res != nil {
-				for _, f := range res.List {
-					if len(f.Names) > 0 {
-						bail("named results outside the fragment")
-					}
+			for _, f := range res.List {
+				if len(f.Names) > 0 {
+					bail("named results outside the fragment")
 				}
 			}
-			p.sigs[n] = sig
-		}()
+			coqNames[sig.coqName] = true
+			t.sig = sig
+			m.sigs[sig.key] = sig
+		})
+	}
+	// bodies, repeated until the sets of fields read through callees and the set of translatable functions are stable
+	for round := 0; round < 12; round++ {
+		m.changed = false
+		m.usedCfg = map[string]bool{}
+		for _, t := range targets {
+			if t.dead != "" {
+				continue
+			}
+			guard(t, func() {
+				en := &env{vars: map[string]ty{}, p: t.p, fn: t.sig, deref: map[string]string{}, errs: map[string]bool{}}
+				for _, pa := range t.sig.params {
+					en.vars[pa.name] = pa.t
+				}
+				body := en.stmts(t.fd.Body.List, t.sig.result, 0)
+				var params []string
+				for i, pa := range t.sig.params {
+					if pa.t.kind == "struct" {
+						for _, f := range t.sig.usedFields(i) {
+							params = append(params, fmt.Sprintf("(v_%s_%s : %s)", pa.name, f.name, coqType(f.t)))
+						}
+						continue
+					}
+					params = append(params, fmt.Sprintf("(v_%s : %s)", pa.name, coqType(pa.t)))
+				}
+				pos := m.fset.Position(t.fd.Pos())
+				rel, _ := filepath.Rel(repo, pos.Filename)
+				sep := " "
+				if len(params) == 0 {
+					sep = ""
+				}
+				t.def = fmt.Sprintf("(* %s  func %s *)\nDefinition %s %s%s: %s :=\n  %s.\n",
+					rel, t.name, t.sig.coqName, strings.Join(params, " "), sep, coqType(t.sig.result), body)
+				t.pos = fmt.Sprintf("%s:%d", rel, pos.Line)
+			})
+			if t.dead != "" {
+				m.changed = true // its callers must be looked at again
+			}
+		}
+		if !m.changed {
+			break
+		}
 	}
 	var defs []string
-	for _, n := range names {
-		fd, ok := decls[n]
-		if !ok {
+	for _, t := range targets {
+		if t.dead != "" {
+			report = append(report, fmt.Sprintf("go2v: %s: %s outside the fragment: %s", mod, t.name, t.dead))
 			continue
 		}
-		func() {
-			defer func() {
-				if r := recover(); r != nil {
-					if u, ok := r.(unsupported); ok {
-						report = append(report, fmt.Sprintf("go2v: %s: %s outside the fragment: %s", mod, n, u.why))
-						delete(p.sigs, n)
-						return
-					}
-					panic(r)
-				}
-			}()
-			sig := p.sigs[n]
-			en := &env{vars: map[string]ty{}, p: p}
-			var params []string
-			if fd.Recv != nil {
-				rn := fd.Recv.List[0].Names[0].Name
-				en.vars[rn] = sig.params[0]
-				params = append(params, fmt.Sprintf("(v_%s : %s)", rn, coqType(sig.params[0])))
-			}
-			for _, f := range fd.Type.Params.List {
-				t := p.resolveType(f.Type)
-				for _, nm := range f.Names {
-					en.vars[nm.Name] = t
-					params = append(params, fmt.Sprintf("(v_%s : %s)", nm.Name, coqType(t)))
-				}
-			}
-			body := en.stmts(fd.Body.List, sig.result, 0)
-			pos := fset.Position(fd.Pos())
-			rel, _ := filepath.Rel(repo, pos.Filename)
-			defs = append(defs, fmt.Sprintf("(* %s  func %s *)\nDefinition %s %s : %s :=\n  %s.\n",
-				rel, n, sig.coqName, strings.Join(params, " "), coqType(sig.result), body))
-			report = append(report, fmt.Sprintf("go2v: %s: translated %s (%s:%d)", mod, n, rel, pos.Line))
-		}()
+		defs = append(defs, t.def)
+		report = append(report, fmt.Sprintf("go2v: %s: translated %s (%s)", mod, t.name, t.pos))
+	}
+	var files []string
+	for _, g := range groups {
+		files = append(files, g.file)
 	}
 	var b strings.Builder
-	fmt.Fprintf(&b, "(* GENERATED by tools/go2v from %s — do not edit; regenerated on every check run. *)\n", file)
+	fmt.Fprintf(&b, "(* GENERATED by tools/go2v from %s — do not edit; regenerated on every check run. *)\n", strings.Join(files, ", "))
 	b.WriteString("From Coq Require Import ZArith Bool.\nFrom Verif Require Import Common.GoInt.\nOpen Scope Z_scope.\n\n")
 	fmt.Fprintf(&b, "Section %s.\n", mod)
-	for _, k := range p.usedCfgOrder() {
+	for _, k := range m.usedCfgOrder() {
 		fmt.Fprintf(&b, "Variable cfg_%s : Z.  (* %s(): configuration value, %s *)\n", strings.ReplaceAll(k, ".", "_"), k, configGetters[k])
 	}
 	b.WriteString("\n")
